@@ -66,7 +66,7 @@ var otherEls = []string{"1.1 other", "1.0 fred", "1.1 p.example.com:8080", "HTTP
 func reqsTotal(p *lib.Proxy) float64 { return lib.MetricSum(p.Gather(), "fw_http_requests_total", nil) }
 
 func main() {
-	run := lib.Start("C18", "generated Via chains (0-5 elements: other hops with protocol names/versions, host:port, comments; this instance's own element at first/middle/last position with any protocol version, followed or not by later hops; same-name different-tag near misses; elements spread over 1-3 field lines) sent origin-form, absolute-form and inside MITM, over HTTP/1.1 and 1.0; plus real loops of one instance (upstream = itself) and two instances (A->B->A) and same-name chains without a loop; distinct = (mode, proto, chain length, own position, lines, near-miss) signatures")
+	run := lib.Start("C18", "generated Via chains (0-5 elements: other hops with protocol names/versions, host:port, comments; this instance's own element at first/middle/last position with any protocol version, followed or not by later hops; same-name different-tag near misses; elements spread over 1-3 field lines) sent origin-form, absolute-form, inside MITM and as CONNECT forwarded to a scripted http / https upstream proxy, over HTTP/1.1 and 1.0; plus real loops of one instance (upstream = itself) and two instances (A->B->A) and same-name chains without a loop, each with GET and CONNECT over http and https upstream URLs (runaway guard at 40 requests/dials); distinct = (mode, proto, chain length, own position, lines, near-miss) signatures")
 	root := run.RNG()
 
 	// ---- (d) generated chains against one instance: direct, MITM, and CONNECT forwarded to a
